@@ -12,12 +12,8 @@ import PygProofs.Lemmas.BitempLemmas
 namespace Pyg.Props.C17
 open Pyg Pyg.Bitemp
 
-/-- a publication history the property speaks about: non-empty, every version a proper series,
-    merged in non-decreasing stamp order -/
-structure Ordered (log : List Version) : Prop where
-  ne : log ≠ []
-  wf : ∀ v ∈ log, v.ts.Sorted
-  stamps : log.Pairwise (fun a b => a.stamp ≤ b.stamp)
+/- `Ordered log` (PygProofs/Lemmas/BitempLemmas.lean): the histories the property speaks about - non-empty, every version
+   a proper series (strictly increasing dates), stamps non-decreasing in merge order. -/
 
 /-- **refinement**: the compressed store answers every as-of read exactly as the full publication log
     would: latest value stamped `≤ T`, merge order breaking ties, NaN never overriding, and a row only
